@@ -174,7 +174,9 @@ func (g *G) SwitchMessageOf(kind string) SwitchMsg {
 		if maxp < 300 {
 			maxp = 300 // the byte budget is soft for the payload: a frame needs room for its headers
 		}
+		g.TruncatedPackets = !g.Avoid["truncated_packet"]
 		pk := g.Ethernet(maxp)
+		g.TruncatedPackets = false
 		p.Data = *pk.Eth
 		sm.Pkt = &pk
 		n := spec.N("msg.packet_in", spec.U("xid", x), spec.U("buffer_id", uint64(p.BufferId)), spec.U("total_len", uint64(p.TotalLen)), spec.U("reason", uint64(p.Reason)),
